@@ -12,7 +12,7 @@ use std::hash::{Hash, Hasher};
 
 const OPS: &[&str] = &[
   "append", "split_off", "drain_vec", "clone", "compare", "spare", "split_spare", "raw_parts",
-  "raw_part", "leak",
+  "raw_part", "leak", "clone_from",
 ];
 
 fn ord(o: Option<Ordering>) -> &'static str {
@@ -71,6 +71,17 @@ impl<T: El> Interp<T> {
         self.room(v.len())?;
         let res = scoped(|| v.clone());
         self.built2(t[2], res)
+      }
+      "clone_from" => {
+        // r.clone_from(&rsrc)
+        argc(3)?;
+        let j = self.vreg(t[2])?;
+        if i == j {
+          return None;
+        }
+        let w: &MiniVec<T> = self.mv(j);
+        self.room(w.len())?;
+        done(scoped(|| v.clone_from(w)))
       }
       "compare" => {
         argc(3)?;
